@@ -414,7 +414,8 @@ static void checkSummary(Ctx& c, const std::string& pfx, const VectorDouble& tab
   if (alt) ea = summaryRef(alt->sel, *alt, nsect);
   int ncand  = (int)res.cands.size();
   // the library adds distmax*rank*1e-9 to the distances before sorting
-  double tol = (ncand + 2) * 1e-9 * radius + 1e-12 * radius;
+  // (bounded by ncand*1e-9*radius); candidates themselves differ by more than TIE_MARGIN*radius
+  double tol = std::max((ncand + 2) * 1e-9, 0.5 * TIE_MARGIN) * radius;
   auto near  = [&](double a, double b, double t) { return (FFFF(a) && FFFF(b)) || std::fabs(a - b) <= t; };
   // does the alternative model (a known root cause) explain the library's value?
   auto keyOr = [&](const std::string& k, bool altExplains) { return (alt && altExplains) ? std::string(altKey) : k; };
